@@ -71,6 +71,12 @@ fn shapes(b: &[u8], rich: bool, out: &mut Vec<Spec>) {
     out.push(Spec::Dyn(Box::new(Spec::Bytes(1, b.to_vec()))));
     out.push(Spec::Take(Box::new(sl(b)), usize::MAX));
     out.push(Spec::Take(Box::new(Spec::BytesMut(0, b.to_vec())), n));
+    // limits slightly beyond the data (the error of a short read must report min(inner, limit))
+    out.push(Spec::Take(Box::new(sl(b)), n + 1));
+    out.push(Spec::Take(Box::new(Spec::Cursor(b.to_vec(), 0)), n + 3));
+    if n >= 2 {
+        out.push(Spec::Take(Box::new(Spec::Chain(Box::new(sl(&b[..1])), Box::new(sl(&b[1..])))), n + 1));
+    }
     // two chunks, boundary at every position (incl. the degenerate ends = empty chunk)
     for p in 0..=n {
         out.push(Spec::Chain(Box::new(sl(&b[..p])), Box::new(sl(&b[p..]))));
